@@ -132,6 +132,7 @@ def one_case(rep, spec, index):
                     else:
                         rep.require("permeate-pressure mode: flux -> permeance round trip", False, ck,
                                     {"got": got, "P": [p1, p2], "mole_fraction_inversion": mole_inv, "y_J": y, "y*": ys, "p": fc.pp})
+        _table_route(rep, case, rng, fc, comps, curve, DiffusionCurve, get_partial_pressures)
     # ---- curves built from permeances in any unit
     perms = []
     vals = []
@@ -162,6 +163,65 @@ def one_case(rep, spec, index):
     rep.require("curve given fluxes AND permeances: permeances exposed in kg/(m2 h kPa)",
                 all(p[i].units == Units.kg_m2_h_kPa and abs(p[i].value - vals[k][i]) <= 8 * EPS * vals[k][i] for k, p in enumerate(both.permeances) for i in (0, 1)),
                 case, {"units": both.permeances[0][0].units, "value": both.permeances[0][0].value, "ref": vals[0][0]})
+
+
+def _table_route(rep, case, rng, fc, comps, curve, DiffusionCurve, get_partial_pressures):
+    """the table route: the case's curve and a vacuum curve of the same points in ONE hand-made table (fluxes only, blank
+    cells where a curve has no permeate condition, either order); every loaded curve must report the permeances of the
+    directly constructed one"""
+    import csv
+    import os
+    import tempfile
+    from pathlib import Path
+
+    from pyvaporation.diffusion_curve import DiffusionCurveSet
+    from pyvaporation.mixtures import Mixtures
+
+    if getattr(Mixtures, str(fc.mix.name), None) is not fc.mix or rng.random() > 0.25:
+        return
+    vac = DiffusionCurve(mixture=fc.mix, membrane_name="M", feed_temperature=fc.t_feed, feed_compositions=comps,
+                         partial_fluxes=[(float(f[0]), float(f[1])) for f in curve.partial_fluxes])
+    originals = [curve, vac] if rng.random() < 0.5 else [vac, curve]
+    blank_permeances = rng.random() < 0.7
+    tmp = tempfile.mkdtemp(prefix="pvmon_c09_")
+    try:
+        rows, header = [], None
+        for cid, c in enumerate(originals, start=1):
+            f = os.path.join(tmp, f"c{cid}.csv")
+            c.save(f)
+            with open(f, newline="") as fh:
+                r = list(csv.reader(fh))
+            header = r[0]
+            for row in r[1:]:
+                row[header.index("curve_id")] = str(cid)
+                if blank_permeances:
+                    for col in ("permeance_1", "permeance_2", "units"):
+                        row[header.index(col)] = ""
+                rows.append(row)
+        table = os.path.join(tmp, "table.csv")
+        with open(table, "w", newline="") as fh:
+            w = csv.writer(fh)
+            w.writerow(header)
+            w.writerows(rows)
+        loaded = DiffusionCurveSet.load(Path(table)).diffusion_curves
+        ck = dict(case, part="table-route", order=["vacuum" if c is vac else "case" for c in originals], blank_permeances=blank_permeances)
+        ok = len(loaded) == 2
+        det = {}
+        if ok:
+            for o, l in zip(originals, loaded):
+                same_cond = (o.permeate_temperature is None) == (l.permeate_temperature is None) and (o.permeate_pressure is None) == (l.permeate_pressure is None)
+                same_perm = all(abs(lp[i].value - op[i].value) <= 1e-9 * abs(op[i].value) for lp, op in zip(l.permeances, o.permeances) for i in (0, 1))
+                if not (same_cond and same_perm):
+                    ok = False
+                    det = {"curve": "vacuum" if o is vac else "case", "loaded_condition": [l.permeate_temperature, l.permeate_pressure],
+                           "original_condition": [o.permeate_temperature, o.permeate_pressure],
+                           "loaded": [[q.value for q in lp] for lp in l.permeances], "original": [[q.value for q in op] for op in o.permeances]}
+                    break
+        rep.require("table route: each curve of a mixed-mode table reports the permeances of the directly built curve", ok, ck, det or {"curves": len(loaded)})
+    finally:
+        import shutil
+
+        shutil.rmtree(tmp, ignore_errors=True)
 
 
 def finalize(agg, tier):
